@@ -8,6 +8,7 @@ Which attempts are recorded across backtracking is a history property and is NOT
               and the monotone (furthest) update of attempt_pos
   ARGS        the truncation indices saved from one attempt vector are only used to truncate that vector
   POLARITY    the look-ahead mode table implements negation parity (what counts as 'under negation')
+  INLINE      the optimizer pass that replaces rule references by their literals runs only inside `@` rules
 """
 from .. import facts, hirq
 from ..hirq import walk, kind, callee, where, peel, PathEnum, exits
@@ -49,6 +50,7 @@ def run(rep, tier):
         polarity(rep, c, sfx)
         reported(rep, c, sfx)
         childcount(rep, c, sfx)
+    inline_rule(rep)
     backends(rep)
 
 
@@ -633,6 +635,59 @@ def childcount(rep, c, sfx):
                     r.violation(name, where(fn["body"]), "%s counts only %s" % (name, sorted(read)))
     if n == 0:
         r.lost("the count of recorded attempts (lengths of pos_attempts / neg_attempts)")
+
+
+def inline_rule(rep):
+    """An optimizer pass that replaces rule references by the referenced rules' literals removes those rules'
+    attempts from the history.  That is invisible only where rules are not reportable: inside `@` rules
+    (`track` returns early for Atomicity::Atomic).  `$` rules keep their inner rules reportable."""
+    from . import c05
+    meta = facts.facts("default").crate("pest_meta")
+    r = rep.rule("C08.INLINE", 1,
+                 "an optimizer pass that consults the map of rule definitions (Ident -> Expr) to replace rule "
+                 "references by their bodies is enabled only for rule type Atomic, the only type in whose interior "
+                 "no rule attempt is recorded")
+    if meta is None:
+        r.lost("pest_meta facts")
+        return
+    adt = meta.adt(c05.RULETYPE)
+    if adt is None:
+        r.lost("ast::RuleType")
+        return
+    guards = c05.ruletype_guards(meta, adt)
+    n = 0
+    for fn in meta.bodies:
+        if not fn["path"].startswith("pest_meta::optimizer::") or fn.get("exp") or "::tests::" in fn["path"]:
+            continue
+        maps = [p for p in fn["params"] if "HashMap<" in str(p.get("ty")) and str(p.get("ty")).rstrip(">").endswith("pest_meta::ast::Expr")]
+        if not maps:
+            continue
+        # nested helpers (`skip::populate_choices`) are reached only from their host; the host carries the guard
+        host = [g for g in meta.bodies if g is not fn and fn["path"].startswith(g["path"] + "::")]
+        if host:
+            continue
+        n += 1
+        short = fn["path"].replace("pest_meta::optimizer::", "")
+        mine = [(cnd, ts) for (f, cnd, ts) in guards
+                if f is fn or f["path"].startswith(fn["path"] + "::")]
+        if not mine:
+            r.instance(short, where(fn["body"]), "consults the rule map without a rule-type test")
+            r.violation(short + ":unguarded", where(fn["body"]),
+                        "%s replaces rule references by their definitions for every rule type: the inlined rules' "
+                        "attempts disappear from failure reports of non-atomic rules" % short)
+            continue
+        for (cnd, ts) in mine:
+            key = "%s:%s" % (short, "+".join(sorted(ts)))
+            r.instance(key, where(cnd), "inlining enabled for %s" % sorted(ts))
+            if not ts <= {"Atomic"}:
+                r.violation(key, where(cnd),
+                            "rule references are replaced by their literals in rules of type %s, whose inner rules "
+                            "are reportable: a non-silent rule inside `!( .. )` is no longer run through "
+                            "ParserState::rule, so its 'unexpected' entry at the furthest position is lost and the "
+                            "report points elsewhere" % sorted(ts - {"Atomic"}))
+    if n == 0:
+        r.note("no optimizer pass takes the Ident -> Expr map")
+        r.floor = 0
 
 
 def backends(rep):
